@@ -106,6 +106,11 @@ class Snapshot:
     def restore(self):
         """-> number of objects whose content had changed"""
         n = 0
+        try:
+            from .shims import functools_shim
+            n += functools_shim.clear_all()          # lru_cache / cache tables made through the shim: empty at the start of every path
+        except Exception:
+            pass
         for mod, g in self.modules:
             d = mod.__dict__
             if not self._same_dict(d, g):
